@@ -25,7 +25,7 @@ EST = "dreye.api.estimator:ReceptorEstimator"
 
 AXES = {
     "K": (["vec", "mat", None], ["vec", "mat", None]),
-    "baseline": (["vec", None], ["vec", None]),
+    "baseline": (["vec", None, "scalar"], ["vec", None, "scalar"]),
     "W": (["mat", "vec", None], ["mat", "vec", None]),
     "lb": (["nonneg", "any"], ["nonneg", "any"]),
     "ub": (["finite", "inf"], ["finite", "inf"]),
@@ -34,7 +34,11 @@ AXES = {
 
 
 def check(rep, an, tier):
-    for cfg in lsq_configs(tier, AXES):
+    cfgs = list(lsq_configs(tier, AXES))
+    if tier == "quick":
+        d0 = {n: AXES[n][0][0] for n in AXES}
+        cfgs.append(dict(d0, K="mat", baseline="scalar"))       # matrix adaptation × scalar baseline
+    for cfg in cfgs:
         kw = lsq_inputs(K=cfg["K"], baseline=cfg["baseline"], W=cfg["W"], lb=cfg["lb"], ub=cfg["ub"], bs=cfg["bs"])
         kw.update(base_kws(model=const("gaussian")))
         kw["solver_opt"] = opaque("solver_opt")
